@@ -206,7 +206,7 @@ func (t *timeline) violate(oracle, detail string, feat map[string]string, stmt i
 			v.Features = map[string]string{}
 		}
 		for k, x := range t.img.Info {
-			if _, ok := v.Features[k]; !ok && k != "ev" && k != "nW" && k != "nNew" {
+			if _, ok := v.Features[k]; !ok && k != "ev" && k != "nW" && k != "nNew" && k != "hdr_changed" {
 				v.Features[k] = x
 			}
 		}
@@ -594,6 +594,17 @@ func (t *timeline) run() {
 			}
 		}
 		exp := m.Predict(s)
+		if !exp.OK && exp.FailAt > 0 && t.r.plan.Prop != "C14" {
+			// a multi-row statement that must be refused at a later row: the
+			// trigger of the open finding F-C14-partial-multirow. Outside the
+			// C14 check such statements are not generated; one can still arise
+			// when a crash image adopted another admissible state than the
+			// generator assumed. The run ends here (counted, not a violation).
+			t.r.res.Abandoned = "statement would trigger F-C14-partial-multirow"
+			w.count("abandoned_c14_trigger")
+			t.stop = true
+			break
+		}
 		w.BeginStmt(i, s.Kind, in)
 		res := t.exec(s)
 		recOps := append([]byte(nil), w.stmtRecOps...)
